@@ -46,8 +46,21 @@ func (e *Effects) addWrite(l Loc, mask uint64) bool {
 // rootMask classifies the root of a pointer/address value inside fn:
 // parameter bit, 0 for fresh local objects, heapBit otherwise.
 func rootMask(fn *ssa.Function, v ssa.Value) uint64 {
+	return rootMaskD(fn, v, 0)
+}
+
+func rootMaskD(fn *ssa.Function, v ssa.Value, depth int) uint64 {
 	root := rootOfAddr(v)
 	switch r := root.(type) {
+	case *ssa.Phi:
+		if depth > 3 {
+			return heapBit
+		}
+		var m uint64
+		for _, e := range r.Edges {
+			m |= rootMaskD(fn, e, depth+1)
+		}
+		return m
 	case *ssa.Parameter:
 		for i, p := range fn.Params {
 			if p == r && i < 63 {
@@ -159,6 +172,8 @@ func rootOfAddr(addr ssa.Value) ssa.Value {
 		case *ssa.FieldAddr:
 			addr = a.X
 		case *ssa.IndexAddr:
+			addr = a.X
+		case *ssa.Slice:
 			addr = a.X
 		default:
 			return addr
@@ -488,6 +503,9 @@ func (p *Prog) CallSites(fn *ssa.Function) []*callgraph.Edge {
 	for _, e := range node.In {
 		if e.Site == nil {
 			continue
+		}
+		if syn := e.Caller.Func.Synthetic; syn != "" && !strings.Contains(syn, "instance") {
+			continue // pointer-receiver wrappers, bound-method thunks
 		}
 		cp := fnPkg(e.Caller.Func)
 		if cp == nil || !strings.HasPrefix(cp.Path(), modPath) || cp.Path() == pkgPaths["rafttest"] {
